@@ -2,6 +2,9 @@ SPECIFICATION Spec
 CONSTANTS
   CSs = {1, 2, 3}
   NPushes = {0, 1, 2, 3, 4, 5, 6, 7}
+  Concs = {TRUE}
+  FaultKinds = {"none"}
+  SetErrOnlyIfNonNil = TRUE
   FinaliseWaits = TRUE
 VIEW View
 INVARIANTS TypeOK FinaliseComplete RaceFree NoTornRun
